@@ -1070,4 +1070,100 @@ theorem step_failed (cfg : Cfg) (σ : State) (s : Sid) (act : Action) (h : (step
       simp [hts, okOut, Res.failed] at h
   | rollback => simp [step, okOut, Res.failed] at h
 
+/-! ### the ghost observation is the value the application received -/
+
+theorem saveHead_res (cfg : Cfg) (σ : State) (s : Sid) (o : Obj) (rest : List Obj) (done : Res) :
+    (saveHead cfg σ s o rest done).2.res = done ∨ (saveHead cfg σ s o rest done).2.res = .blocked
+    ∨ (saveHead cfg σ s o rest done).2.res = .keyError ∨ (saveHead cfg σ s o rest done).2.res = .optimisticCheckError := by
+  unfold saveHead
+  simp only
+  by_cases hw : (wAttrs cfg ((σ.sess s).objs o)).isEmpty = true
+  · simp [hw]
+  · simp only [hw]
+    by_cases hb : (ensureTxn (setImmediate σ s) s).2 = true
+    · simp only [hb, Bool.not_true, Bool.false_eq_true, if_false]
+      generalize critCols cfg s (((ensureTxn (setImmediate σ s) s).1.sess s).forUpd o) ((σ.sess s).objs o) = cols
+      by_cases hk : keyMissing ((σ.sess s).objs o) cols (wAttrs cfg ((σ.sess s).objs o)) = true
+      · simp [hk]
+      · simp only [hk]
+        by_cases hall : whereOk (ensureTxn (setImmediate σ s) s).1 s o ((σ.sess s).objs o) cols = true
+        · simp [hall]
+        · simp [hall]
+    · simp [hb]
+
+theorem query_ok (cfg : Cfg) (σ : State) (s : Sid) (imm : Bool) (k : State → State × Out) (w : Option Val)
+    (h : (query cfg σ s imm k).2.res = .ok w) : query cfg σ s imm k = k (ensureTxn (setImmIf σ s imm) s).1 := by
+  unfold query at h ⊢
+  split
+  · rename_i o rest hts
+    simp only [hts] at h
+    rcases saveHead_res cfg σ s o rest .flushing with h1 | h1 | h1 | h1 <;> rw [h1] at h <;> simp at h
+  · rename_i hts
+    simp only [hts] at h ⊢
+    split
+    · rename_i hb; simp [hb] at h
+    · rfl
+
+theorem getAttr_obs (cfg : Cfg) (σ : State) (s : Sid) (o : Obj) (a : Attr) (f : Val → Val) (v : Val)
+    (h : (getAttr cfg σ s o a f).2.res = .ok (some v)) (hw : ((σ.sess s).objs o).wbits a = false)
+    (hvol : cfg.volatile a = false) :
+    ∃ x, f x = v ∧ (((getAttr cfg σ s o a f).1.sess s).objs o).obs a = some x := by
+  unfold getAttr at h ⊢
+  simp only at h ⊢
+  split
+  · rename_i hv; simp [hv] at h
+  · rename_i x hv
+    simp only [hv] at h
+    refine ⟨x, by simpa using h, ?_⟩
+    simp [State.withSess, ObjSt.read, hw, hvol, hv]
+
+theorem fetchRow_wbits (σ σ2 : State) (s : Sid) (o : Obj) (as : List Attr) (fu : Bool) (a : Attr)
+    (h : fetchRow σ s o as fu = some σ2) (hw : ((σ.sess s).objs o).wbits a = false) :
+    ((σ2.sess s).objs o).wbits a = false := by
+  unfold fetchRow at h
+  simp only at h
+  split at h
+  · simp at h
+  · rename_i os2 hds
+    have := Option.some.inj h; subst this
+    have hwb := (dbSet_written _ _ _ _ hds).2.2.1
+    simp only [State.withSess, upd_same, hwb]
+    split
+    · exact hw
+    · rfl
+
+theorem loadAttr_obs (cfg : Cfg) (s : Sid) (o : Obj) (a : Attr) (f : Val → Val) (σ1 : State) (v : Val)
+    (h : (loadAttr cfg s o a f σ1).2.res = .ok (some v)) (hw : ((σ1.sess s).objs o).wbits a = false)
+    (hvol : cfg.volatile a = false) :
+    ∃ x, f x = v ∧ (((loadAttr cfg s o a f σ1).1.sess s).objs o).obs a = some x := by
+  unfold loadAttr at h ⊢
+  split
+  · rename_i hf; simp [hf] at h
+  · rename_i σ2 hf
+    simp only [hf] at h
+    exact getAttr_obs cfg σ2 s o a f v h (fetchRow_wbits σ1 σ2 s o _ false a hf hw) hvol
+
+/-- `obj.a` returned `v` while the session had no unflushed assignment to `a`: `v` is recorded as the observation -/
+theorem read_obs (cfg : Cfg) (σ : State) (s : Sid) (o : Obj) (a : Attr) (v : Val)
+    (h : (step cfg σ s (.read o a)).2.res = .ok (some v)) (hw : ((σ.sess s).objs o).wbits a = false)
+    (hvol : cfg.volatile a = false) : (((step cfg σ s (.read o a)).1.sess s).objs o).obs a = some v := by
+  simp only [step] at h ⊢
+  split
+  · rename_i hc; simp [hc] at h
+  · rename_i hc
+    simp only [hc] at h
+    split
+    · rename_i hv
+      simp only [hv, if_true] at h
+      obtain ⟨x, hx, hobs⟩ := getAttr_obs cfg σ s o a id v h hw hvol
+      simpa [← hx] using hobs
+    · rename_i hv
+      simp only [hv] at h
+      have hq := query_ok cfg σ s false _ _ h
+      rw [hq] at h ⊢
+      have hobjs : (((ensureTxn (setImmIf σ s false) s).1.sess s).objs o).wbits a = false := by
+        rw [(ensureTxn_sess _ s).1, (setImmIf_sess σ s false).1]; exact hw
+      obtain ⟨x, hx, hobs⟩ := loadAttr_obs cfg s o a id _ v h hobjs hvol
+      simpa [← hx] using hobs
+
 end PonyVerif.Model.Occ
